@@ -1,53 +1,31 @@
-(* Loading never changes what an existing identifier denotes (identifiers of existing terms are stable;
-   new terms get identifiers the prior database did not decode). *)
+(* Loading never changes what an existing identifier denotes (identifiers of existing terms - dictionary ids and
+   quoted-triple ids - are stable; new terms get identifiers the prior database did not decode). *)
 Require Import KV.Codec13.Model KV.Codec13.Spec KV.Codec13.Wf KV.Codec13.Classes KV.Codec13.Inv.
 Require Import KV.Codec13.StrProofs KV.Codec13.ChunkProofs KV.Codec13.TokProofs KV.Codec13.DictProofs KV.Codec13.NtProofs.
 Require Import Lia.
 
-Lemma add_quad_ext : forall x q, ext x (add_quad x q).
-Proof. intros x q. destruct (add_quad_frame x q) as (D & Q & _). split; [exact Q | rewrite D; auto]. Qed.
-
-Lemma add_lex_ext : forall x s p o g, db_ok x -> next_id (d_dict x) + 4 <= QBIT -> ext x (add_lex x s p o g).
-Proof.
-  intros x s p o g [Hd _] Hn. rewrite add_lex_enc3. destruct (enc3 x s p o) as [x3 [[si pi] oi]] eqn:E3.
-  assert (N3 : next_id (d_dict x) + 3 <= QBIT) by lia.
-  destruct (enc3_spec _ _ _ _ _ _ _ _ E3 Hd N3) as (D3 & X3 & _ & _ & _ & _ & _ & _ & U3).
-  destruct g as [gs|].
-  - destruct (db_encode x3 gs) as [x4 gi] eqn:E4.
-    assert (N4 : next_id (d_dict x3) < QBIT) by lia.
-    destruct (db_encode_spec _ _ _ _ E4 D3 N4) as (_ & X4 & _).
-    apply (ext_trans _ _ _ X3). apply (ext_trans _ _ _ X4). apply add_quad_ext.
-  - apply (ext_trans _ _ _ X3). apply add_quad_ext.
-Qed.
-
-Lemma fold_add_lex_ext : forall qs x, db_ok x -> next_id (d_dict x) + 4 * N.of_nat (length qs) <= QBIT ->
-  ext x (fold_left add_lex4 qs x).
-Proof.
-  induction qs as [|[[[s p] o] g] qs IH]; intros x Hx Hn; [apply ext_refl|].
-  cbn [fold_left add_lex4]. cbn [length] in Hn. rewrite Nat2N.inj_succ in Hn.
-  assert (N1 : next_id (d_dict x) + 4 <= QBIT) by lia.
-  destruct (add_lex_spec x s p o g Hx N1) as (K1 & _ & K3 & _).
-  apply (ext_trans _ _ _ (add_lex_ext x s p o g Hx N1)). apply IH; [exact K1 | lia].
-Qed.
-
 Lemma ntriples_ids_stable : forall (n : nat) (doc : list item) (x : db),
-  (1 <= n)%nat -> wf_doc_nt doc = true -> known_C13_reclean doc = false -> db_ok x ->
-  next_id (d_dict x) + 4 * N.of_nat (length (triples_of doc)) <= QBIT ->
+  (1 <= n)%nat -> wf_doc_nt doc = true -> known_C13_reclean doc = false -> db_okq x ->
+  next_id (d_dict x) + 10 * N.of_nat (length (triples_of doc)) <= QBIT ->
   forall i s, decode_any x i = Some s -> decode_any (load_nt_n n (render_doc doc) x) i = Some s.
 Proof.
-  intros n doc x Hn1 Hw Hk Hx Hn i s H. unfold load_nt_n, encode_triples. rewrite parsed_concat by exact Hn1.
-  destruct (nt_lines doc Hw) as [E1 E2]. rewrite E1.
-  pose proof (doc_stable doc (wf_nt_nq doc Hw) Hk) as St.
-  rewrite (encode_then_add _ (stable4_drop _ St)). rewrite E2.
-  apply (decode_any_ext x); [apply fold_add_lex_ext; assumption | exact H].
+  intros n doc x Hn1 Hw Hk Hx Hn i s H. rewrite (load_nt_fold n doc x Hn1 Hw Hk).
+  pose proof (doc_stmts_ok doc (wf_nt_nq doc Hw) Hk) as Ok.
+  rewrite (triples_stmts doc (wf_nt_nq doc Hw)) in Hn. rewrite map_length in Hn.
+  destruct (fold_step4_spec (doc_stmts doc) x Ok Hx Hn) as (_ & _ & X & _).
+  apply (decode_any_ext x); assumption.
 Qed.
 
 Lemma nquads_ids_stable : forall (doc : list item) (x : db),
-  wf_doc_nq doc = true -> known_C13_reclean doc = false -> db_ok x ->
-  next_id (d_dict x) + 4 * N.of_nat (length (triples_of doc)) <= QBIT ->
+  wf_doc_nq doc = true -> known_C13_reclean doc = false -> db_okq x ->
+  next_id (d_dict x) + 10 * N.of_nat (length (triples_of doc)) <= QBIT ->
   forall i s, decode_any x i = Some s -> decode_any (load_nq (render_doc doc) x) i = Some s.
 Proof.
   intros doc x Hw Hk Hx Hn i s H. unfold load_nq. rewrite nq_lines by exact Hw.
-  rewrite load_nq_stmt_stable by (apply doc_stable; assumption).
-  apply (decode_any_ext x); [apply fold_add_lex_ext; assumption | exact H].
+  pose proof (doc_stmts_ok doc Hw Hk) as Ok. rewrite (triples_stmts doc Hw) in Hn. rewrite map_length in Hn.
+  assert (E : fold_left load_nq_stmt (map cleaned4 (doc_stmts doc)) x = fold_left step4 (doc_stmts doc) x).
+  { clear Hn Hx H. revert x. induction Ok as [|q qs Hq Hqs IH]; intro x; [reflexivity|].
+    cbn [map fold_left]. rewrite load_nq_stmt_step4 by exact Hq. apply IH. }
+  rewrite E. destruct (fold_step4_spec (doc_stmts doc) x Ok Hx Hn) as (_ & _ & X & _).
+  apply (decode_any_ext x); assumption.
 Qed.
